@@ -99,6 +99,9 @@ mut("c15_length_width_swapped_in_moves", "C15", "non-square boards",
 mut("c15_private_unseeded_rng", "C15", "any repetition in another process",
     [("roberta_generator.py", "            moves.append(random.choices([0, 1, 2], [0.2, 0.6, 0.2], k=width))",
       "            moves.append(random.SystemRandom().choices([0, 1, 2], [0.2, 0.6, 0.2], k=width) if width > 30 else random.choices([0, 1, 2], [0.2, 0.6, 0.2], k=width))")])
+mut("c15_probability_ranges_checked_by_assert", "C15", "the tool run as `python -O`: the range checks of the probabilities are assert statements and vanish",
+    [("roberta_generator.py", "    if prob_robot_break <= 0 or prob_robot_break >= 1:\n        raise ValueError(\"The failure probability of the robot must be a float in (0,1)\")\n",
+      "    try:\n        assert 0 < prob_robot_break < 1\n    except AssertionError:\n        raise ValueError(\"The failure probability of the robot must be a float in (0,1)\")\n")])
 # ---- C17 -------------------------------------------------------------------
 mut("c17_fix_reverted", "C17", "k in {29, 57, 58}",
     [("roberta_generator.py", "    return str(round(prob*100))\n", "    return str(int(prob*100))\n")])
